@@ -1443,9 +1443,15 @@ class PlacementFeasibilityTracker:
     def __init__(self):
         self.recorder = dict()
 
+    @staticmethod
+    def _shape(app):
+        """App shape, including the traits required by the app."""
+        constraints, demand = app.shape()
+        return constraints + (app.traits,), demand
+
     def feasible(self, app):
         """Checks if it is feasible to satisfy demand."""
-        constraints, demand = app.shape()
+        constraints, demand = self._shape(app)
         if constraints in self.recorder:
             # If demand is >= than recorded failure, placement is not feasible.
             if _all_ge(demand, self.recorder[constraints]):
@@ -1455,7 +1461,7 @@ class PlacementFeasibilityTracker:
 
     def adjust(self, app):
         """Adjust info about failed placement."""
-        constraints, demand = app.shape()
+        constraints, demand = self._shape(app)
         if constraints not in self.recorder:
             self.recorder[constraints] = demand
         else:
